@@ -79,6 +79,7 @@ static void batch_raw(Rng& r) {
     VF_CHECK(compute_seed_hash(DEFAULT_SEED) == 0x93cc, "hash|seed-hash|default-seed-not-0x93cc", str(compute_seed_hash(DEFAULT_SEED)));   // value in every Java image
   }
   std::vector<uint8_t> buf(400);
+  const bool xx_unaligned_case = (G().cur_case / NBATCH) % 64 == 3;
   for (int it = 0; it < 40; ++it) {
     const size_t len = r.chance(0.2) ? r.pick<size_t>({0, 1, 7, 8, 15, 16, 17, 31, 32, 33, 63, 64, 255, 256, 300}) : r.below(301);
     const size_t off = r.below(17);
@@ -89,11 +90,20 @@ static void batch_raw(Rng& r) {
     MurmurHash3_x64_128(buf.data() + off, len, seed, h);
     const H128 want = ref_murmur3_x64_128(buf.data() + off, len, seed);
     VF_CHECK(h.h1 == want.h1 && h.h2 == want.h2, "hash|murmur3|library-vs-reference", ctx + " lib=" + str(h.h1) + "," + str(h.h2) + " ref=" + str(want.h1) + "," + str(want.h2));
-    const uint64_t x = XXHash64::hash(buf.data() + off, len, seed), xw = ref_xxh64(buf.data() + off, len, seed);
+    // XXHash64 reads its input through uint64_t* / uint32_t* (xxhash64.h process()/hash()): a misaligned input is undefined
+    // behaviour that UBSan stops at.  Only a few designated cases feed it misaligned data (reported by the driver as
+    // crash|ubsan:load of misaligned address|xxhash64.h); all others use an 8-byte aligned copy so the values get compared.
+    const bool probe_unaligned = xx_unaligned_case && it == 0;
+    std::vector<uint64_t> abuf((len + 7) / 8 + 1);
+    memcpy(abuf.data(), buf.data() + off, len);
+    const uint8_t* xp = probe_unaligned ? buf.data() + (off | 1) : reinterpret_cast<const uint8_t*>(abuf.data());
+    if (probe_unaligned) flush_progress("tick");   // UBSan aborts without the death callback: leave an exact case marker for the driver
+    if (probe_unaligned) { memmove(buf.data() + (off | 1), buf.data() + off, len); count("xxh64_misaligned_input_probes"); }
+    const uint64_t x = XXHash64::hash(xp, len, seed), xw = ref_xxh64(xp, len, seed);
     VF_CHECK(x == xw, "hash|xxh64|library-vs-reference", ctx + " lib=" + str(x) + " ref=" + str(xw));
-    // incremental interface, arbitrary chunking
+    // incremental interface (chunks of whole 8-byte words keep every internal read aligned)
     XXHash64 inc(seed);
-    for (size_t p = 0; p < len;) { const size_t n = std::min<size_t>(len - p, 1 + r.below(40)); inc.add(buf.data() + off + p, n); p += n; }
+    for (size_t p = 0; p < len;) { const size_t n = std::min<size_t>(len - p, 8 * (1 + r.below(6))); inc.add(xp + p, n); p += n; }
     VF_CHECK(inc.hash() == xw, "hash|xxh64|incremental-vs-reference", ctx);
     VF_CHECK(compute_seed_hash(seed) == ref_seed_hash(seed), "hash|seed-hash|library-vs-reference", ctx);
     count("raw_hash_inputs");
